@@ -792,3 +792,9 @@ def run(prog, rep, tier, snap):
     rep.rule("R07.1", "the zone handle of a DTSTART reads back as the zone whose TZID is written (shared with C07)", 2)
     rep.call(c07.r07_1, prog, rep)
 READY = True
+
+# texts brought up to date with the rules above (they supersede the first versions at the top of the module)
+LEVEL_TEXT = LEVEL_TEXT + (" Also: owned strings inherited from the calendar level are copied, not shared; a stream class with an array of pending "
+                           "occurrences writes all of it; nothing derived from the writer's fill level is used across a flush; the serialiser converts a "
+                           "rule stream's wall-clock proto before comparing it with cached occurrences; the byte behind a backslash must reach the "
+                           "task (it does not: known finding).")
